@@ -13,7 +13,7 @@ CHECKS  = c01 c02 c03 c04 c05 c06 c07 c08 c09 c10 c11 c12 c13 c14 c15 c16 c17 c1
 # per-binary extra flags
 FLAGS_c16 = -O2 -Iharness/mpishim
 FLAGS_c14 = -O2 -lquadmath
-FLAGS_c11 = -lquadmath
+FLAGS_c11 = -lquadmath -Iharness/mpishim
 FLAGS_c18 = -ldl -Iharness/mpishim
 FLAGS_c05 = -O2
 FLAGS_c04 = -Iharness/mpishim
